@@ -50,6 +50,10 @@ pub struct Case {
     /// (extensions are independent: what PRF reports does not depend on its neighbours)
     #[serde(default)]
     pub cred_props: u8,
+    /// CTAP2-level assertion without a presence test (up = false): the user-validation method
+    /// reports no presence, and verification as `verified` says
+    #[serde(default)]
+    pub no_up: bool,
 }
 
 fn pat(seed: u8, len: usize) -> Vec<u8> {
@@ -82,10 +86,10 @@ pub fn cases(tier: Tier) -> Vec<Case> {
                         for ebc in 0..10u8 {
                             for variant in 0..3u8 {
                                 for &len in &lens {
-                                    v.push(Case { hmac, hmac_mc, register: true, ctap: false, uv_required, verified, secrets: 0, eval, ebc, allow: 0, variant, len, len2: None, dict: None, secret_len: None, cred_props: 0 });
+                                    v.push(Case { hmac, hmac_mc, register: true, ctap: false, uv_required, verified, secrets: 0, eval, ebc, allow: 0, variant, len, len2: None, dict: None, secret_len: None, cred_props: 0, no_up: false });
                                     for secrets in 0..3u8 {
                                         for allow in 0..3u8 {
-                                            v.push(Case { hmac, hmac_mc, register: false, ctap: false, uv_required, verified, secrets, eval, ebc, allow, variant, len, len2: None, dict: None, secret_len: None, cred_props: 0 });
+                                            v.push(Case { hmac, hmac_mc, register: false, ctap: false, uv_required, verified, secrets, eval, ebc, allow, variant, len, len2: None, dict: None, secret_len: None, cred_props: 0, no_up: false });
                                         }
                                     }
                                 }
@@ -95,9 +99,9 @@ pub fn cases(tier: Tier) -> Vec<Case> {
                         for ebc in [0u8, 2, 3] {
                             for secrets in 0..3u8 {
                                 // CTAP2-level registration: `secrets` selects the hmac-secret member {absent, false, true}
-                                v.push(Case { hmac, hmac_mc, register: true, ctap: true, uv_required, verified, secrets, eval, ebc: 0, allow: 0, variant: 1, len: 32, len2: None, dict: None, secret_len: None, cred_props: 0 });
+                                v.push(Case { hmac, hmac_mc, register: true, ctap: true, uv_required, verified, secrets, eval, ebc: 0, allow: 0, variant: 1, len: 32, len2: None, dict: None, secret_len: None, cred_props: 0, no_up: false });
                                 for allow in [0u8, 2] {
-                                    v.push(Case { hmac, hmac_mc, register: false, ctap: true, uv_required, verified, secrets, eval, ebc, allow, variant: 1, len: 32, len2: None, dict: None, secret_len: None, cred_props: 0 });
+                                    v.push(Case { hmac, hmac_mc, register: false, ctap: true, uv_required, verified, secrets, eval, ebc, allow, variant: 1, len: 32, len2: None, dict: None, secret_len: None, cred_props: 0, no_up: false });
                                 }
                             }
                         }
@@ -110,17 +114,17 @@ pub fn cases(tier: Tier) -> Vec<Case> {
     for (len, len2) in [(40u16, 24u16), (24, 40), (32, 0), (0, 32), (32, 31), (64, 0), (16, 48)] {
         for hmac in 1..3u8 {
             for ebc in [0u8, 2] {
-                v.push(Case { hmac, hmac_mc: true, register: true, ctap: false, uv_required: true, verified: true, secrets: 0, eval: 2, ebc: 0, allow: 0, variant: 1, len, len2: Some(len2), dict: None, secret_len: None, cred_props: 0 });
-                v.push(Case { hmac, hmac_mc: true, register: false, ctap: false, uv_required: true, verified: true, secrets: 2, eval: 2, ebc, allow: 2, variant: 1, len, len2: Some(len2), dict: None, secret_len: None, cred_props: 0 });
+                v.push(Case { hmac, hmac_mc: true, register: true, ctap: false, uv_required: true, verified: true, secrets: 0, eval: 2, ebc: 0, allow: 0, variant: 1, len, len2: Some(len2), dict: None, secret_len: None, cred_props: 0, no_up: false });
+                v.push(Case { hmac, hmac_mc: true, register: false, ctap: false, uv_required: true, verified: true, secrets: 2, eval: 2, ebc, allow: 2, variant: 1, len, len2: Some(len2), dict: None, secret_len: None, cred_props: 0, no_up: false });
             }
         }
     }
     // every input length 0..=300 once (hash block boundaries, scratch-buffer sizes): first input of
     // length n, second of length 300 - n, through the client's own salt derivation
     for n in 0..=300u16 {
-        v.push(Case { hmac: 2, hmac_mc: true, register: false, ctap: false, uv_required: true, verified: true, secrets: 2, eval: 2, ebc: if n % 2 == 0 { 0 } else { 2 }, allow: 2, variant: 0, len: n, len2: Some(300 - n), dict: None, secret_len: None, cred_props: 0 });
+        v.push(Case { hmac: 2, hmac_mc: true, register: false, ctap: false, uv_required: true, verified: true, secrets: 2, eval: 2, ebc: if n % 2 == 0 { 0 } else { 2 }, allow: 2, variant: 0, len: n, len2: Some(300 - n), dict: None, secret_len: None, cred_props: 0, no_up: false });
         if n % 4 == 0 {
-            v.push(Case { hmac: 2, hmac_mc: true, register: true, ctap: false, uv_required: true, verified: true, secrets: 0, eval: 2, ebc: 0, allow: 0, variant: 0, len: n, len2: Some(300 - n), dict: None, secret_len: None, cred_props: 0 });
+            v.push(Case { hmac: 2, hmac_mc: true, register: true, ctap: false, uv_required: true, verified: true, secrets: 0, eval: 2, ebc: 0, allow: 0, variant: 0, len: n, len2: Some(300 - n), dict: None, secret_len: None, cred_props: 0, no_up: false });
         }
     }
     // stored secrets of other lengths than the library generates (below, at and above the hash's
@@ -129,7 +133,7 @@ pub fn cases(tier: Tier) -> Vec<Case> {
         for verified in [true, false] {
             for secrets in 1..3u8 {
                 for ctap in [false, true] {
-                    v.push(Case { hmac: 2, hmac_mc: true, register: false, ctap, uv_required: verified, verified, secrets, eval: 2, ebc: 0, allow: 2, variant: 1, len: 32, len2: None, dict: None, secret_len: Some(secret_len), cred_props: 0 });
+                    v.push(Case { hmac: 2, hmac_mc: true, register: false, ctap, uv_required: verified, verified, secrets, eval: 2, ebc: 0, allow: 2, variant: 1, len: 32, len2: None, dict: None, secret_len: Some(secret_len), cred_props: 0, no_up: false });
                 }
             }
         }
@@ -140,11 +144,14 @@ pub fn cases(tier: Tier) -> Vec<Case> {
             for register in [false, true] {
                 for variant in 0..2u8 {
                     let bytes = if variant == 1 { rp::sha256(&l) } else { l.clone() };
-                    v.push(Case { hmac, hmac_mc: true, register, ctap: false, uv_required: true, verified: true, secrets: 2, eval: 1, ebc: 0, allow: if register { 0 } else { 2 }, variant, len: bytes.len() as u16, len2: None, dict: Some(hex(&bytes)), secret_len: None, cred_props: 0 });
+                    v.push(Case { hmac, hmac_mc: true, register, ctap: false, uv_required: true, verified: true, secrets: 2, eval: 1, ebc: 0, allow: if register { 0 } else { 2 }, variant, len: bytes.len() as u16, len2: None, dict: Some(hex(&bytes)), secret_len: None, cred_props: 0, no_up: false });
                 }
             }
         }
     }
+    // silent assertions (no presence test) with and without a verified user, CTAP2 level
+    let silent: Vec<Case> = v.iter().filter(|c| c.ctap && !c.register).map(|c| Case { no_up: true, ..c.clone() }).collect();
+    v.extend(silent);
     // the credProps extension next to PRF in the same client request (32-byte inputs)
     let with_neighbour: Vec<Case> = v.iter().filter(|c| !c.ctap && c.len == 32 && c.len2.is_none() && c.dict.is_none() && c.secret_len.is_none() && c.ebc <= 2).flat_map(|c| [Case { cred_props: 1, ..c.clone() }, Case { cred_props: 2, ..c.clone() }]).collect();
     v.extend(with_neighbour);
@@ -271,7 +278,7 @@ struct Out {
 
 fn run_case(c: &Case, store: &Shared<RefStore>, log: &Log) -> Result<Out, String> {
     let inp = build_inputs(c);
-    let uv = ScriptedUv { verification_cap: Some(true), presence_cap: true, outcome: UvOutcome::Ok { presence: true, verification: c.verified }, yields: 0, log: log.clone() };
+    let uv = ScriptedUv { verification_cap: Some(true), presence_cap: true, outcome: UvOutcome::Ok { presence: !c.no_up, verification: c.verified }, yields: 0, log: log.clone() };
     let cfg = AuthCfg { counter: true, id_len: None, hmac: c.hmac, hmac_mc: c.hmac_mc, order: 0 };
     let logged = Logging { inner: store.clone(), log: log.clone() };
     let allow = match c.allow {
@@ -309,7 +316,7 @@ fn run_case(c: &Case, store: &Shared<RefStore>, log: &Log) -> Result<Out, String
                 }
             } else {
                 let ext = get_assertion::ExtensionInputs { hmac_secret: None, prf: Some(prf) };
-                let req = ga_request("example.com", allow, false, true, c.uv_required, false, Some(ext));
+                let req = ga_request("example.com", allow, false, !c.no_up, c.uv_required, false, Some(ext));
                 match block_on(auth.get_assertion(req)) {
                     Ok(r) => {
                         let fl: u8 = r.auth_data.flags.into();
@@ -378,6 +385,11 @@ pub fn eval(c: &Case) -> (Vec<Finding>, String, bool) {
             bad("failure-without-admissible-reason", format!("the user consented as required and the credential carries both secrets, yet the assertion failed ({})", out.err));
         }
         return (fs, format!("{op}:err"), c.uv_required && !c.verified);
+    }
+    // a verification that was asked for and performed shows in the UV bit (which secret is
+    // admissible hangs on it), with or without a presence test
+    if c.uv_required && c.verified && !out.uv_bit {
+        bad("verified-but-uv-bit-clear", format!("verification was required and the user was verified, yet the UV bit is clear (presence test: {})", !c.no_up));
     }
     let recs = store.0.lock().unwrap().recs_ordered();
     let used = out.used.clone().unwrap_or_default();
